@@ -412,6 +412,7 @@ func templates(g *ssa.Function, target ssa.Instruction) ([]*PathState, bool) {
 
 func resetInlineMemo() {
 	tripMemo = map[*ssa.Function]map[*ssa.BasicBlock]*tripLoop{}
+	dataLoopMemo = map[*ssa.Function]map[*ssa.BasicBlock]*dataLoop{}
 	pureMemo = map[*ssa.Function]int{}
 	tmplMemo = map[tmplKey][]*PathState{}
 	tmplComplete = map[tmplKey]bool{}
